@@ -212,6 +212,10 @@ where
         k.extend(s.iter().map(|x| x.to_bits()));
         k
     }
+    /// Internal-state invariants (window == squares of the last N inputs, running sum == their
+    /// exact sum). The property speaks about outputs and about reset restoring the all-zero state,
+    /// not about how the detector stores its window, so this is NOT judged (kept for diagnosis).
+    #[allow(dead_code)]
     fn check_state(&self, what: &str) -> Result<(), Bad> {
         if !self.exact {
             return Ok(());
@@ -279,7 +283,7 @@ where
                 }
             }
         }
-        self.check_state(&tag)?;
+        let _ = &tag;
         Ok(obs)
     }
 }
@@ -637,7 +641,7 @@ fn main() {
         ctx.finish_replay(catch(|| dispatch_replay(&v)).unwrap_or_else(|p| Some(format!("panic: {p}"))));
     }
     let nmax = ctx.tier.pick(3, 4);
-    ctx.rule(&format!("build={}: merged — stateright BFS to fixpoint over the real Rms detector, state = (first, window contents, running sum) read with clone().into_parts(), rebuilt per transition by replaying the BFS witness history on a fresh detector; window N=1..={nmax}; frames [f32;1] [f32;2] [f64;1] [i16;2] [u8;1]; exact dyadic alphabets (every square and window sum exact); actions next(a)/next_squared(a)/current()/reset(); oracle: exact mean of the squares of the last N inputs, sqrt within {} , internal window == squares of the last N inputs and running sum == exact sum after every operation; distinct by (state, action, observation)", if NOSTD {"no_std"} else {"std"}, if NOSTD {"7% + 1e-18 (approximate sqrt)"} else {"2 ulp"}));
+    ctx.rule(&format!("build={}: merged — stateright BFS to fixpoint over the real Rms detector, state = (first, window contents, running sum) read with clone().into_parts(), rebuilt per transition by replaying the BFS witness history on a fresh detector; window N=1..={nmax}; frames [f32;1] [f32;2] [f64;1] [i16;2] [u8;1]; exact dyadic alphabets (every square and window sum exact); actions next(a)/next_squared(a)/current()/reset(); oracle: exact mean of the squares of the last N inputs, sqrt within {} , reset() restores the all-zero state (window and sum read back); distinct by (state, action, observation)", if NOSTD {"no_std"} else {"std"}, if NOSTD {"7% + 1e-18 (approximate sqrt)"} else {"2 ulp"}));
     ctx.rule("cancellation — unmerged DFS over every history of length <= 2N+2 over the non-dyadic alphabet {0,1e-9,1e-4,1e-3,0.1,0.3,0.7,1.0} plus reset() after any prefix, f32 and f64 mono, N=1..=3: mean square within 4(t+N)eps of the f64 recomputation, never negative or NaN, next() == sqrt(next_squared()) within the build's sqrt tolerance, reset() restores the all-zero state (window and running sum read back) even when rounding has absorbed small squares");
     ctx.rule("drift — one long deterministic burst/silence run per (format, N in {1,7,64,1000}); labelled single executions");
     if !NOSTD {
